@@ -201,12 +201,38 @@ class WriterShapes:
             return out
         if isinstance(v, ast.ListComp):
             out.append(WFact(prefix + ('[]',), v.elt, f, False, 'none', node=at))
+            out += self._comp_value(f, v, v.elt, prefix + ('[]',), at, depth)
             return out
         if isinstance(v, ast.DictComp):
             out.append(WFact(prefix + ('*',), v.value, f, False, 'none', keyexpr=v.key, node=at))
-            out += self.of_expr(f, v.value, prefix + ('*',), at, depth)
+            out += self._comp_value(f, v, v.value, prefix + ('*',), at, depth)
             return out
         return out
+
+    def _comp_value(self, f, comp, val, prefix, at, depth):
+        """structure of the element / value expression of a comprehension: a direct call, or a name
+        bound by `for (a, b) in map(g, C)` / `for x in (g(y) for y in C)` to (part of) g's result."""
+        env = self.prog.env(f)
+        if isinstance(val, ast.Call):
+            return self.of_expr(f, val, prefix, at, depth)
+        if isinstance(val, ast.Name):
+            for gen in comp.generators:
+                it = gen.iter
+                if isinstance(it, ast.Call) and isinstance(it.func, ast.Name) and it.func.id == 'map' \
+                        and len(it.args) == 2:
+                    fake = ast.Call(func=it.args[0], args=[ast.Name(id='_', ctx=ast.Load())], keywords=[])
+                    ast.copy_location(fake, it)
+                    ast.fix_missing_locations(fake)
+                    res = env.resolve_call(fake)
+                    if res[0] == 'func':
+                        tg = gen.target
+                        if isinstance(tg, ast.Name) and tg.id == val.id:
+                            return [self._rebase(w, prefix) for w in self.of_return(res[1], None, depth + 1)]
+                        if isinstance(tg, (ast.Tuple, ast.List)):
+                            for i, el in enumerate(tg.elts):
+                                if isinstance(el, ast.Name) and el.id == val.id:
+                                    return [self._rebase(w, prefix) for w in self.of_return(res[1], i, depth + 1)]
+        return []
 
     def _rebase(self, w: WFact, prefix) -> WFact:
         n = WFact.__new__(WFact)
